@@ -100,6 +100,7 @@ type kase struct {
 	impl  map[string]string
 
 	tapeLayoutDiffers bool
+	noPred            bool // invalid configuration (constructor refuses): compared with the model only
 }
 
 func idsText(ids []sharing.ID, sep string) string {
@@ -319,6 +320,7 @@ func hookFor(t *tamper, dry, replaySrc *dsess.Result) drive.Hook {
 // ---------------------------------------------------------------- running a case on the implementation
 
 func (k *kase) run() {
+	k.noPred = len(k.quorum) < 2 || contains(k.quorum, 0)
 	cfg := dsess.Config{Seed: k.seed, Prop: prop, Quorum: k.quorum}
 	if k.tam != nil {
 		dry := dsess.RunFull(cfg)
@@ -445,7 +447,7 @@ func inboxText[M any](in map[sharing.ID]M, f func(m M) string) string {
 	return strings.Join(parts, ",")
 }
 
-func (k *kase) line(rng *vh.Rng) string {
+func (k *kase) line() string {
 	var sb strings.Builder
 	tbl := "-"
 	if len(k.table) > 0 {
@@ -1232,7 +1234,7 @@ func genTamper(rng *vh.Rng, quorum []sharing.ID, i int) *tamper {
 func main() {
 	a := vh.ParseArgs()
 	res := vh.NewResult(prop, a.Seed, a.Tier)
-	res.Rule = "session cases: every quorum of size 2..6 (..10 thorough) drawn from three ID pools (ordinal, sparse unsorted, >= 2^40 incl. 2^64-1), real Round1..4 over CBOR with recording tapes; observables per party: sent messages, verdict(+round, blamed), SessionID, transcript extract, quorum, first 32 bytes of every peer seed, the same for every sub-quorum of size <= 4 (all sizes thorough), nested and refused sub-quorums; tamper cases: bit flip / zero / swap / replay / drop / raw CBOR bit flip of every message type; NewContext called directly with arbitrary seeds; zero shares over k256, edwards25519 and both scalar fields, model shares over Z_q(k256). Non-trivial = the run got past the constructor (all cases) — distinct counts the canonical case text."
+	res.Rule = "session cases: every quorum of size 2..6 (thorough: plus sizes 7..10) drawn from three ID pools (ordinal, sparse unsorted, >= 2^40 incl. 2^64-1 and 1), each party told the quorum in its own order; the real Round1..4 are driven over CBOR with recording tapes; per party the model gets the randomness the party used and exactly the messages delivered to it; observables per party: sent messages, verdict (+round, blamed party), SessionID, transcript extract, quorum, first 32 bytes of every peer seed, the same for every sub-quorum of size <= 4 (thorough: all sizes), nested (depth 2-3) and refused sub-quorums (singleton, foreign member, not a subset); tamper cases: bit flip / zeroing / swap with another party's / replay (other recipient's copy, other session's broadcast) / drop / raw CBOR bit flip of every message type, uniform and per-recipient for broadcasts, plus a sweep over every byte (thorough: every bit) of every field and payload of one three-party session; NewContext called directly with arbitrary ids, seeds and lengths; zero shares over k256, edwards25519 prime subgroup and both scalar fields summed to the identity on quorum and sub-quorums, model shares over Z_q(k256) compared value by value. All hashes of the model are answered by Go's own blake2b / sha3. Non-trivial = the run got past the constructor (NewContext: accepted); distinct counts canonical case texts."
 	gs := groups
 	reg := &registry{seeds: map[string]string{}}
 
@@ -1323,6 +1325,13 @@ func main() {
 		}
 		t0 = time.Now()
 	}
+	// constructor refusals: a quorum of one, the reserved id 0
+	if a.Replay == "" {
+		for i, q := range [][]sharing.ID{{5}, {0, 3}, {3, 0, 9}, {0}} {
+			cases = append(cases, &kase{id: fmt.Sprintf("c%d", i), seed: a.Seed*1000 + 800000 + int64(i), quorum: q})
+		}
+	}
+
 	// systematic sweep: one three-party session, every byte (quick: one bit per byte;
 	// thorough: every bit) of every field of every message type flipped, and every byte
 	// of every raw CBOR payload
@@ -1380,9 +1389,8 @@ func main() {
 
 	lap("impl")
 	// the model
-	lrng := vh.NewRng(a.Seed, prop, "line", 0)
 	outs, err := solve(a.Driver, len(cases),
-		func(i int) string { return cases[i].line(lrng) },
+		func(i int) string { return cases[i].line() },
 		func(i int, e []string) { cases[i].table = append(cases[i].table, e...) })
 	if err != nil {
 		res.Mismatch(vh.Mismatch{ID: "driver", Kind: "corr", Key: "model-driver-failed", Detail: err.Error(), Case: "-", What: "the extracted model could not be evaluated"})
@@ -1393,6 +1401,9 @@ func main() {
 	lap("model")
 	for i, k := range cases {
 		class := "honest"
+		if k.noPred {
+			class = "refused-config"
+		}
 		if k.tam != nil {
 			class = "tamper-" + k.tam.Kind
 		}
@@ -1409,7 +1420,12 @@ func main() {
 			fmt.Fprintf(os.Stderr, "CASE %s\nMODEL %s\nIMPL %v\n", k.text(), outs[i], k.impl)
 		}
 		key, detail := diffMaps(model, k.impl)
-		pk, pd := k.predicate(reg, gs)
+		var pk, pd string
+		if k.noPred {
+			// nothing to require beyond the model's refusal
+		} else if p := vh.Safely(func() { pk, pd = k.predicate(reg, gs) }); p != "" {
+			pk, pd = "panic-in-implementation", p
+		}
 		if key != "" {
 			// shrink: keep only the sub-quorum path the disagreement is about
 			ct := k.text()
